@@ -267,6 +267,10 @@ def render_module(spec, modname, extra_header=""):
             if bc["module"] != modname and b not in imported:
                 L.append(f"from {spec['pkg']}.{bc['module']} import {b}")
                 imported.add(b)
+    for m, r in spec.get("imports") or ():
+        if m == modname:
+            # plain dependency on a sibling module: when that sibling is removed later, this module still exists but no longer imports
+            L.append(f"import {spec['pkg']}.{r}")
     L.append("")
 
     def render_class(c, ind):
@@ -319,6 +323,20 @@ def add_twin_module(spec, rng):
             if f.get("inner"):
                 g["inner"] = dict(f["inner"], fid=f["inner"]["fid"] + TWIN_OFF, src_fid=f["inner"]["fid"])
             spec["funcs"].append(g)
+
+
+def broken_modules(spec):
+    """Modules that still exist but (transitively) import a removed sibling module."""
+    rm = set(spec.get("removed_modules") or ())
+    broken = set()
+    changed = True
+    while changed:
+        changed = False
+        for m, r in spec.get("imports") or ():
+            if m not in rm and m not in broken and (r in rm or r in broken):
+                broken.add(m)
+                changed = True
+    return broken
 
 
 class Loaded:
@@ -376,6 +394,10 @@ def load(spec, root=None):
         if root:
             with open(fn, "w") as fh:
                 fh.write(src)
+        if m in broken_modules(spec):
+            # the file stays on disk, but importing it raises ModuleNotFoundError naming the removed sibling
+            lp.sources[m] = src
+            continue
         mod = types.ModuleType(pkg + "." + m)
         mod.__file__ = fn
         mod.__package__ = pkg
@@ -439,6 +461,8 @@ def load(spec, root=None):
             d = lp.modules[f["module"]].__dict__
             d[f["name"]] = tripwires.CallProxy(d[f["name"]], 9000 + fid)
             f["proxied"] = True
+    if root:
+        importlib.invalidate_caches()
     return lp
 
 
